@@ -29,7 +29,10 @@ CONSTANTS Macs,        \* hardware addresses
           Outs,        \* in-subnet addresses outside the range
           GW,          \* the gateway address
           Far,         \* an address outside the subnet
-          ReqHosts,    \* host names a client may send ("" = none)
+          ReqHosts,    \* host names a client may send ("" = none); may contain
+                       \* names that look like derived ones (GenName of an address)
+          BadHosts,    \* those of ReqHosts that cannot be used as a host name
+                       \* (empty label, over-long label, trailing dot)
           StaticHosts, \* host names an administrator may give ("" = none)
           MaxStatic,   \* model bound: number of reservations
           LeaseT       \* the configured lease time, in clock ticks
@@ -40,8 +43,12 @@ vars == <<ls, disk>>
 
 Subnet == Pool \cup Outs \cup {GW}
 
-\* The name the server derives from an address when the client sends none.
+\* The name the server derives from an address when the client sends none,
+\* and some other name derived from the address that nobody else can have
+\* (for the case that the first one is taken: a client may ASK for a name
+\* that looks like the derived name of somebody else's address).
 GenName(a) == "g" \o ToString(a)
+AltName(a) == "u" \o ToString(a)
 
 \* A lease.  st: reservation (static).  rem: the number of clock ticks for
 \* which the client may still use the address according to the LAST DHCPACK it
@@ -104,15 +111,18 @@ DiscoverOut(S, m) ==
          ELSE {Outc(T, Offer((CHOOSE l \in Of(T, m) : TRUE).ip)) : T \in as}
 
 \* ------------------------------------------------------------------ REQUEST
-\* Host names.  The client asks for h ("" = none: a name derived from the
-\* address).  The lease ends up with a non-empty name nobody else has, taken
-\* from: the wanted name, the name the lease already had, the derived name.
-\* Should all of these belong to other leases the lease stays without a name.
+\* Host names.  The client asks for h ("" = none, or a name that cannot be
+\* used: a name derived from the address).  The lease ends up with a
+\* non-empty name nobody else has, taken from: the wanted name, the name the
+\* lease already had, the derived name.  Should all of these belong to other
+\* leases, the lease gets another unique derived name or stays without one
+\* (the statement does not say which) -- but never a name somebody else has:
+\* the name -> address answer must stay a function.
 HostChoices(S, l, h) ==
-    LET want  == IF h = "" THEN GenName(l.ip) ELSE h
+    LET want  == IF h = "" \/ h \in BadHosts THEN GenName(l.ip) ELSE h
         cands == {want, l.host, GenName(l.ip)} \ {""}
         ok    == {x \in cands : \A o \in S \ {l} : o.host # x}
-    IN  IF ok = {} THEN {""} ELSE ok
+    IN  IF ok = {} THEN {"", AltName(l.ip)} ELSE ok
 
 \* The three kinds (selecting, init-reboot, renew) differ in how the packet
 \* names the address; the table treats them alike: acknowledged iff the
